@@ -53,11 +53,17 @@ def texts(salt):
                       f'{{ return "z" weighted 1, "w" weighted 1 }} }}',
         "shared-str": f'def t5 {{ {s}splitters: uid if uid != "7" and uid not in ("1.0", "None") {{ return "x" weighted 1, "y" weighted 1 }} '
                       f'else {{ return "z" weighted 1, "w" weighted 1 }} }}',
+        # one-member lists: (x) is a tuple with one member, so `in` tests membership whatever the type of uid
+        "shared-single": f'def t6 {{ {s}splitters: uid if uid in ("7") or uid in (7) or uid not in ("") {{ return "x" weighted 1, "y" weighted 1 }} '
+                         f'else {{ return "z" weighted 1, "w" weighted 1 }} }}',
+        # an ordering comparison on the splitter behind a guard: `not (A and B)` evaluates B only when A holds
+        "shared-guarded": f'def t7 {{ {s}splitters: uid if not (tier == 1 and uid > 1000) and (tier == 0 or uid <= 10 or uid > 10) '
+                          f'{{ return "x" weighted 1, "y" weighted 1 }} else {{ return "z" weighted 1, "w" weighted 1 }} }}',
     }
 
 
 LABELS = {"one": {"a", "b", "c"}, "two": {"a", "b"}, "cond": {"x", "y", "z", "w"}, "shared-num": {"x", "y", "z", "w"},
-          "shared-str": {"x", "y", "z", "w"}}
+          "shared-str": {"x", "y", "z", "w"}, "shared-single": {"x", "y", "z", "w"}, "shared-guarded": {"x", "y", "z", "w"}}
 
 
 def nontrivial_value(v):
@@ -141,6 +147,9 @@ def run(ctx):
             text, ev = evs[(salt, shape)]
             extra = rnd.choice(FIXED_VALUES[:40])
             env = dict(uid=v, region=rnd.choice(["eu", 7, None]), tier=rnd.choice([0, 1]), unrelated=extra, another=v)
+            if shape == "shared-guarded":
+                # the guard is open (tier == 1) only for values that can be ordered against a number
+                env["tier"] = 1 if type(v) in (int, float, bool) and rnd.random() < 0.7 else 0
             out = im.call(ev, env)
             ctx.evaluated()
             if nontrivial_value(v):
@@ -153,6 +162,8 @@ def run(ctx):
             # v and str(v) print identically: same bucket (when the splitter is also a routing field the two may be routed
             # to different return statements - x/y vs z/w - but both statements split 1:1, so the *index* is shared)
             env2 = dict(env, uid=sv)
+            if shape == "shared-guarded":
+                env2["tier"] = 0
             out2 = im.call(ev, env2)
             ctx.evaluated()
             same_bucket = out2 == out
